@@ -37,18 +37,32 @@ def run(tier="quick", prop=None):
         return obs, info
     try:
         unit = load_unit()
-        try:
-            txt, meta = V.build_pipe_unit(unit)
-        except (V.LostAnchor, KeyError, ValueError) as e:
-            return all_undecided("lost anchor / unsupported construct: %s" % e)
-        path = os.path.join(wd, "pipe_unit.rs")
-        open(path, "w").write(txt)
-        os.makedirs(os.path.join(core.EVID, "units"), exist_ok=True)
-        shutil.copyfile(path, os.path.join(core.EVID, "units", "pipe_unit.rs"))
-        r = V.run_verus(path)
-        errs = V.parse_errors(r["stderr"])
-        js = r["json"] or {}
-        vr = js.get("verification-results", {})
+        force_lost = {}
+        for _attempt in range(4):
+            try:
+                txt, meta = V.build_pipe_unit(unit, force_lost)
+            except (V.LostAnchor, KeyError, ValueError) as e:
+                return all_undecided("lost anchor / unsupported construct: %s" % e)
+            path = os.path.join(wd, "pipe_unit.rs")
+            open(path, "w").write(txt)
+            os.makedirs(os.path.join(core.EVID, "units"), exist_ok=True)
+            shutil.copyfile(path, os.path.join(core.EVID, "units", "pipe_unit.rs"))
+            r = V.run_verus(path)
+            errs = V.parse_errors(r["stderr"])
+            js = r["json"] or {}
+            vr = js.get("verification-results", {})
+            # tool-level diagnostics inside one handler (unsupported std function, text that no longer type-checks with the
+            # injected proof block): that handler alone is set aside (contract assumed, reported undecided) and the rest re-run
+            hard = [e for e in errs if not V.is_verification_failure(e)]
+            ranges0 = [(m["unit_line"], m["unit_line"] + m["n_lines"], m["function"]) for m in meta["linemap"]]
+            newly = {}
+            for e in hard:
+                for (a, b, fn) in ranges0:
+                    if e["line"] and a <= e["line"] < b and fn not in force_lost:
+                        newly[fn] = "Verus does not accept this handler's text on this tree: %s" % e["message"][:200]
+            if not newly:
+                break
+            force_lost.update(newly)
         info["checker_cmd"] = r["cmd"].replace(path, "evidence/units/pipe_unit.rs")
         info["verus_results"] = vr
         info["rewrites_E7_E8"] = [x for x in meta["rules"] if x["kind"] in ("E7", "E8")]
